@@ -53,9 +53,11 @@ func checks() map[string]CheckDef {
 			{Pkg: "internal/zzverif/c04", Func: "HarnessAncestors", Quick: [][]int64{{3}}, Thorough: [][]int64{{4}, {5}}, Labels: []string{"C04/ancestors-error-iff-not-descendant", "C04/ancestors-exact-path"}},
 			{Pkg: "internal/zzverif/c04", Func: "HarnessByHeight", Quick: [][]int64{{3}, {4}}, Thorough: [][]int64{{5}, {6}}, Labels: []string{"C04/by-height-answers", "C04/by-height-only-stored", "C04/by-height-only-from-window", "C04/by-height-no-duplicates", "C04/by-height-all-longest-in-window"}},
 			{Pkg: "internal/zzverif/c04", Func: "HarnessCommonAncestor", Quick: [][]int64{{3, 1}, {3, 2}}, Thorough: [][]int64{{4, 2}, {3, 3}, {5, 2}}, Labels: []string{"C04/common-ancestor-unknown-hash-is-an-error", "C04/common-ancestor-found-iff-one-exists", "C04/common-ancestor-is-the-highest-common-one"}},
+			{Pkg: "transports/http/endpoints/api/headers", Func: "HarnessMapHeader", Quick: [][]int64{{2}}, Thorough: [][]int64{{3}}, Labels: []string{"C04/header-response-carries-the-stored-fields", "C04/state-response-carries-the-stored-fields", "C04/list-response-keeps-length-and-order"}},
+			{Pkg: "transports/http/endpoints/api/tips", Func: "HarnessMapTip", Quick: [][]int64{{2}}, Thorough: [][]int64{{3}}, Labels: []string{"C04/tip-response-carries-the-stored-fields", "C04/tips-response-keeps-length-and-order"}},
 		},
 		Bounds:  []string{"arbitrary INV-H store of k rows (quick k=3, thorough k<=5), every column symbolic; query hash an arbitrary string (by-hash/state) or any ordered pair of distinct stored headers (ancestors); by-height: any height and count with |.| < 2^40; common-ancestor: every list of n stored-or-unknown hashes (quick n<=2, thorough n<=3), on stores without a parent stored after its child"},
-		Outside: []string{"JSON mapping of the responses (headers/model.go, tips/model.go)", "PostgreSQL", "tips: the row order of the UNION is unspecified, the result is compared as a set"},
+		Outside: []string{"JSON encoding of the response structs (field names / tags); the struct-level mapping is checked for every header with a timestamp within uint32 seconds", "PostgreSQL", "tips: the row order of the UNION is unspecified, the result is compared as a set"},
 		Stubs:   []string{"zerolog calls have no effect", "sqlx over the sqlm model"},
 	})
 	add(CheckDef{
